@@ -211,3 +211,40 @@ def mean_spatial_gradient(vc):
     for c in range(d):
         vc.ensures("entry_is_dm_dq", g[c] == derivative(val, _d_q("q", c)))
 import contracts.matrix_laws  # noqa: F401  (numerical self-test of the matrix layer's axioms)
+
+
+@bounded("C16", "derivatives_after_reconfiguration_native", native_runs=8)
+def derivatives_after_reconfiguration_native(vc):
+    """the derivative predictions belong to the CURRENT hyper-parameters: after set_hyperparameters(...) (and after an
+    earlier derivative call, in case anything is cached) gradient / spatial_derivatives agree with finite differences of the
+    re-configured regressor's own predictions"""
+    from inference.gp import GpRegressor, SquaredExponential, QuadraticMean
+    seed = vc.int("seed", lo=0, hi=10 ** 6)
+    rng = np.random.default_rng(seed)
+    d = vc.int("d", lo=1, hi=2)
+    n = int(rng.integers(4, 10))
+    x = rng.normal(size=(n, d)) * 1.5
+    y = np.sin(x.sum(axis=1)) + 0.1 * rng.normal(size=n)
+    th1 = np.concatenate([rng.normal(size=1 + 2 * d) * 0.3, [0.0], rng.uniform(-0.3, 0.3, size=d)])
+    th2 = np.concatenate([rng.normal(size=1 + 2 * d) * 0.3, [0.4], rng.uniform(0.2, 0.8, size=d)])
+    gp = GpRegressor(x, y, y_err=np.full(n, 0.05), kernel=SquaredExponential, mean=QuadraticMean, hyperpars=th1)
+    q = rng.normal(size=(2, d))
+    gp.gradient(q), gp.spatial_derivatives(q)             # (warm any cache)
+    gp.set_hyperparameters(th2)
+    h = 1e-5
+
+    def fd(f, p):
+        g = np.zeros(d)
+        for c in range(d):
+            e = np.zeros(d)
+            e[c] = h
+            g[c] = (-f(p + 2 * e) + 8 * f(p + e) - 8 * f(p - e) + f(p - 2 * e)) / (12 * h)
+        return g
+    dmu = np.array([fd(lambda p: gp(p[None, :])[0][0], q[k]) for k in range(2)])
+    dvar = np.array([fd(lambda p: gp(p[None, :])[1][0] ** 2, q[k]) for k in range(2)])
+    s_mean, s_var = [np.reshape(a, (2, d)) for a in gp.spatial_derivatives(q)]
+    g_mean = np.reshape(gp.gradient(q)[0], (2, d))
+    sc = max(1.0, float(np.abs(dmu).max()), float(np.abs(dvar).max()))
+    vc.ensures("mean_derivatives_belong_to_the_current_hyperparameters",
+               bool(np.allclose(s_mean, dmu, rtol=1e-5, atol=1e-6 * sc) and np.allclose(g_mean, dmu, rtol=1e-5, atol=1e-6 * sc)))
+    vc.ensures("variance_derivative_belongs_to_the_current_hyperparameters", bool(np.allclose(s_var, dvar, rtol=1e-4, atol=1e-6 * sc)))
